@@ -15,6 +15,7 @@ type flowBuilder struct {
 	filterTree         internaltypes.FilterTreeI
 	flowReps           map[string]internaltypes.FlowRepI
 	foreignRoot        *EntryPoint
+	incorporating      map[string]bool // flows whose incorporation is in progress
 	nodeBuilder        *graphNodeBuilder
 	processorManager   *processors.ProcessorManager
 	resourceManagement *resources.ResourceManagement
@@ -254,6 +255,15 @@ func (fb *flowBuilder) incorporateFlow(flowName string, targetFlowDir *FlowDirec
 	if !exists {
 		return fmt.Errorf("flow '%s' not found", flowName)
 	}
+
+	if fb.incorporating == nil {
+		fb.incorporating = make(map[string]bool)
+	}
+	if fb.incorporating[flowName] || flowName == targetFlowDir.flowName {
+		return fmt.Errorf("circular flow reference detected - flow '%s'", flowName)
+	}
+	fb.incorporating[flowName] = true
+	defer delete(fb.incorporating, flowName)
 
 	// build connections from the source flow and add all to target FlowDirection
 	connections := flowRep.GetFlow().GetFlowConnections(targetFlowDir.flowType)
